@@ -132,6 +132,23 @@ pub mod shim {
             assert(le_bytes(x, k + 1) =~= le_bytes(x, k).push((pdiv(x, k) % 256) as u8));
         }
     }
+    /*PROVED_IN:u_pnet*/ pub broadcast proof fn lemma_be16_subrange(s: Seq<u8>, a: int, b: int, o: int)
+        requires 0 <= a, 0 <= o, a + o + 2 <= b, b <= s.len()
+        ensures #[trigger] be16(s.subrange(a, b), o) == be16(s, a + o)
+    { }
+    /*PROVED_IN:u_pnet*/ pub broadcast proof fn lemma_be32_subrange(s: Seq<u8>, a: int, b: int, o: int)
+        requires 0 <= a, 0 <= o, a + o + 4 <= b, b <= s.len()
+        ensures #[trigger] be32(s.subrange(a, b), o) == be32(s, a + o)
+    { }
+    /*PROVED_IN:u_pnet*/ pub broadcast proof fn lemma_subrange_full<T>(s: Seq<T>)
+        ensures #[trigger] s.subrange(0, s.len() as int) == s
+    { assert(s.subrange(0, s.len() as int) =~= s); }
+    /// std's reflexive `impl<T> From<T> for T` is the identity (trusted); makes u8 -> u8 `try_into()` transparent
+    #[verifier::external_body]
+    pub broadcast proof fn axiom_from_reflexive_u8()
+        ensures #[trigger] <u8 as vstd::std_specs::convert::FromSpec<u8>>::obeys_from_spec(),
+            forall|v: u8| #[trigger] <u8 as vstd::std_specs::convert::FromSpec<u8>>::from_spec(v) == v {}
+    pub broadcast group group_be_subrange { lemma_be16_subrange, lemma_be32_subrange, lemma_subrange_full, axiom_from_reflexive_u8, axiom_be_bytes16_len }
     pub open spec fn zeros(n: nat) -> Seq<u8> { Seq::new(n, |i: int| 0u8) }
 
     // ---------------------------------------------------------------- addresses
@@ -174,6 +191,11 @@ pub mod shim {
     pub broadcast proof fn axiom_ip6addr_eq()
         ensures #[trigger] <Ipv6Addr as vstd::std_specs::cmp::PartialEqSpec>::obeys_eq_spec(),
             forall|a: Ipv6Addr, b: Ipv6Addr| #[trigger] <Ipv6Addr as vstd::std_specs::cmp::PartialEqSpec>::eq_spec(&a, &b) == (a == b) {}
+    pub assume_specification [Ipv4Addr::new] (a: u8, b: u8, c: u8, d: u8) -> (r: Ipv4Addr)
+        ensures ip4_octets(r) == seq![a, b, c, d];
+    pub assume_specification [Ipv6Addr::new] (a: u16, b: u16, c: u16, d: u16, e: u16, f: u16, g: u16, h: u16) -> (r: Ipv6Addr)
+        ensures ip6_octets(r) == seq![(a / 256) as u8, (a % 256) as u8, (b / 256) as u8, (b % 256) as u8, (c / 256) as u8, (c % 256) as u8, (d / 256) as u8, (d % 256) as u8,
+                                      (e / 256) as u8, (e % 256) as u8, (f / 256) as u8, (f % 256) as u8, (g / 256) as u8, (g % 256) as u8, (h / 256) as u8, (h % 256) as u8];
     pub assume_specification [Ipv6Addr::is_multicast] (a: &Ipv6Addr) -> (r: bool)
         ensures r == (ip6_octets(*a)[0] == 0xff);
     pub assume_specification [Ipv4Addr::is_multicast] (a: &Ipv4Addr) -> (r: bool)
@@ -207,6 +229,17 @@ pub mod shim {
             ensures r@ == seq![(self / 256) as u8, (self % 256) as u8] { self.to_be_bytes() }
         #[verifier::external_body] fn to_le_bytes_v(self) -> (r: [u8; 2])
             ensures r@ == seq![(self % 256) as u8, (self / 256) as u8] { self.to_le_bytes() }
+    }
+    /// the 16 big-endian bytes of a u128 (uninterpreted; `to_be_bytes` and byteorder's `read_u128` are inverse)
+    pub uninterp spec fn be_bytes16(x: u128) -> Seq<u8>;
+    #[verifier::external_body]
+    pub broadcast proof fn axiom_be_bytes16_len(x: u128)
+        ensures (#[trigger] be_bytes16(x)).len() == 16 {}
+    impl BytesShim for u128 { type Out = [u8; 16];
+        #[verifier::external_body] fn to_be_bytes_v(self) -> (r: [u8; 16])
+            ensures r@ == be_bytes16(self) { self.to_be_bytes() }
+        #[verifier::external_body] fn to_le_bytes_v(self) -> (r: [u8; 16])
+            ensures r@.len() == 16 { self.to_le_bytes() }
     }
     impl BytesShim for u32 { type Out = [u8; 4];
         #[verifier::external_body] fn to_be_bytes_v(self) -> (r: [u8; 4])
